@@ -14,7 +14,7 @@ MOD = __name__
 RULE = ("every client operation x Hypothesis status reply from the RFC 5804 response grammar (OK/NO/BYE x response code absent | "
         "atom | atom/atom | atom with parameter x text absent | quoted with escapes | literal incl. multi-line; data before the "
         "status for data-bearing operations), plus NO/BYE at each step of multi-step operations (AUTHENTICATE, STARTTLS, the five "
-        "steps of emulated rename); oracle computed from the abstract reply: OK => True/data, NO => False/None with errcode = "
+        "steps of emulated rename; each SASL mechanism with seven reply shapes at every point where the server may end the exchange, errcode/errmsg compared); oracle computed from the abstract reply: OK => True/data, NO => False/None with errcode = "
         "response code and errmsg = decoded text, BYE => managesieve.Error; a sentinel operation afterwards must succeed and leave "
         "no bytes. Non-trivial = reply is not 'OK \"<text>\"'; distinct by (operation, reply bytes).")
 
@@ -121,7 +121,35 @@ def multistep_cases():
         cases.append({"kind": "authenticate", "step": "AUTHENTICATE", "fault": kind, "replies": [rep]})
     for kind, rep in (("NO", no), ("BYE", bye)):
         cases.append({"kind": "starttls", "step": "STARTTLS", "fault": kind, "replies": [rep]})
+    # every SASL mechanism, status reply at each point where the server may end the exchange, in several reply shapes
+    shapes = [("NO", (b"TRYLATER", None, None), b"later", "quoted"), ("NO", None, b"wrong password", "quoted"), ("NO", (b"QUOTA", b"MAXSIZE", "quoted"), None, None),
+              ("NO", None, b"line one\r\nline two", "literal"), ("NO", None, None, None), ("BYE", None, b"bye", "quoted"), ("OK", None, b"welcome", "quoted")]
+    for mech, nsteps in (("PLAIN", 1), ("LOGIN", 1), ("OAUTHBEARER", 1), ("DIGEST-MD5", 3)):
+        for step in range(1, nsteps + 1):
+            for k, (status, code, text, form) in enumerate(shapes):
+                if status == "OK" and mech == "DIGEST-MD5" and step < 3:
+                    continue  # OK without rspauth verification: what the client does then is SASL's business, not C09's
+                cases.append({"kind": "sasl", "mech": mech, "step": "%s-%d" % (mech, step), "at": step, "fault": status, "shape": k,
+                              "code": code, "text": text, "form": form})
     return cases
+
+
+def sasl_replies(c):
+    """Canned (or computed) server side of one SASL exchange ending with the case's status reply at step c['at']."""
+    import base64
+    from ..msref import sasl
+    final = wire.status_line(c["fault"].encode(), tuple(c["code"]) if c["code"] else None, c["text"], c["form"] or "quoted")
+    if c["mech"] != "DIGEST-MD5":
+        return [final]
+    chal = wire.enc_quoted(base64.b64encode(sasl.digest_challenge("r", "nonce123"))) + wire.CRLF
+
+    def rspauth(peer, cmd):
+        raw = peer.violations.pop()[1] if cmd is None else cmd.raw
+        val, _ = wire.parse_string_line(raw)
+        rec = sasl.digest_verify(sasl.b64d(val), "r", "nonce123", "p", "server.example.org")
+        return wire.enc_quoted(base64.b64encode(rec["rspauth"])) + wire.CRLF
+
+    return ([chal, rspauth, final][: c["at"] - 1] + [final]) if c["at"] < 3 else [chal, rspauth, final]
 
 
 def run_multistep(c):
@@ -136,6 +164,21 @@ def run_multistep(c):
         peer = ScriptedPeer(R.GREETING, c["replies"])
         s = Session(peer)
         got = s.call("connect", "u", "p")
+    elif c["kind"] == "sasl":
+        greeting = R.GREETING.replace(wire.capability_line(b"SASL", b"PLAIN"), wire.capability_line(b"SASL", c["mech"].encode()))
+        peer = ScriptedPeer(greeting, sasl_replies(c) + [SENTINEL])
+        s = Session(peer)
+        got = s.call("connect", "u", "p")
+        if c["fault"] == "NO" and got == ("ret", False):
+            codes = [b""] if c["code"] is None else [c["code"][0], c["code"][0] + b" " + wire.enc_quoted(c["code"][1])] if c["code"][1] else [c["code"][0]]
+            ec, em = s.client.errcode, s.client.errmsg
+            if ec not in codes or em != (c["text"] or b""):
+                out.append(("multistep-errcode-or-errmsg-mismatch|sasl|%s" % c["step"],
+                            {"case": c, "errcode": ec, "errmsg": em, "expected_errcode_one_of": codes, "expected_errmsg": c["text"] or b""}))
+        if c["fault"] == "OK" and got == ("ret", True):
+            g2 = s.call("havespace", "sentinel", 1)
+            if g2 != ("ret", True) or s.sock.inq:
+                out.append(("multistep-reply-not-fully-consumed|sasl|%s" % c["step"], {"case": c, "sentinel": g2}))
     else:
         greeting = R.GREETING.replace(wire.capability_line(b"VERSION", b"1.0"), wire.capability_line(b"VERSION", b"1.0") + wire.capability_line(b"STARTTLS"))
         peer = ScriptedPeer(greeting, c["replies"])
@@ -144,7 +187,7 @@ def run_multistep(c):
     exp = ("exc", "Error") if c["fault"] == "BYE" else ("ret", c["fault"] == "OK")
     if not R.matches(exp, got):
         out.append(("multistep-result-mismatch|%s|%s|%s" % (c["kind"], c["step"], c["fault"]),
-                    {"case": {k: v for k, v in c.items() if k != "replies"}, "expected": exp, "got": got}))
+                    {"case": {k: v for k, v in c.items() if k != "replies"}, "expected": exp, "got": got, "violations": [v[0] for v in peer.violations][:3]}))
     s.close()
     return out
 
@@ -197,7 +240,7 @@ def main(tier, seed, t0):
     quick = tier == "quick"
     col = core.run_shards(worker, [(seed * 1000 + 1400 + k, 1000 if quick else 10000) for k in range(16)])
     need = ["op:" + o for o in R.OPS] + ["status:OK", "status:NO", "status:BYE", "code:none", "code:atom", "code:param",
-                                          "text:none", "text:quoted", "text:literal", "multistep:emulated-rename", "multistep:starttls"]
+                                          "text:none", "text:quoted", "text:literal", "multistep:emulated-rename", "multistep:starttls", "multistep:sasl"]
     missing = [c for c in need if not col.classes.get(c)]
     if missing:
         raise core.HarnessError("generator classes empty: %s" % missing)
